@@ -31,7 +31,21 @@ def parts(tier):
     return [{"name": "e2e", "n": 640 if tier == "quick" else 12000}]
 
 
-STRATEGY = gen.election_case()
+@gen.st.composite
+def _strategy(draw):
+    case = draw(gen.election_case())
+    st = gen.st
+    # a quarter of the conformal cases: one or two feed rows whose dem or gop count has not arrived yet (NaN cell)
+    if case["req"]["pi"] != "bootstrap" and draw(st.integers(0, 3)) == 0:
+        with_feed = [u for u in case["units"] if u["feed"] is not None and u["status"] in (gen.R, gen.N, gen.NH, gen.B, gen.T_HI)]
+        for _ in range(draw(st.integers(1, 2))):
+            if with_feed:
+                u = with_feed[draw(st.integers(0, len(with_feed) - 1))]
+                u["feed"]["nan"] = draw(st.sampled_from(["dem", "gop"]))
+    return case
+
+
+STRATEGY = _strategy()
 
 
 def check_case(case, ctx):
@@ -87,8 +101,13 @@ def check_case(case, ctx):
             for e in req["estimands"]:
                 col = f"results_{e}"
                 for uid, v in zip(ids, ut[col]):
-                    if not (float(v) == float(by_id[uid]["res"][e])):
-                        viol("unit_results", f"{uid}: {col}={v} feed {by_id[uid]['res'][e]}")
+                    want = by_id[uid]["res"][e]
+                    if want is None:  # the count for this estimand is missing in the feed
+                        if not np.isnan(float(v)):
+                            viol("unit_results", f"{uid}: {col}={v} although the feed has no count for it")
+                            break
+                    elif not (float(v) == float(want)):
+                        viol("unit_results", f"{uid}: {col}={v} feed {want}")
                         break
 
     # (ii)+(iii) aggregate levels
@@ -119,7 +138,7 @@ def check_case(case, ctx):
                 break
             bad = False
             for e in req["estimands"]:
-                s = sum(m["res"][e] for m in members)
+                s = sum(m["res"][e] for m in members if m["res"][e] is not None)
                 v = float(t[f"results_{e}"].iloc[i])
                 if e == "margin":
                     pt = float(t["pred_turnout"].iloc[i])
@@ -155,6 +174,8 @@ def check_case(case, ctx):
     for c in classes:
         ctx.label("has:" + c)
     ctx.label("aggs:" + ",".join(req["aggregates"]))
+    if any(r.get("nan_cell") for r in recs) or any((u.get("feed") or {}).get("nan") for u in case["units"]):
+        ctx.label("feed_row_with_missing_count")
     if len(classes) >= 3 and n_levels >= 2:
         ctx.nontrivial(common.structure_signature(case, recs), common.summarize_case(case, recs))
 
